@@ -856,13 +856,26 @@ func (fe *FnEnc) mergeVals(gs []string, vs []Val, t types.Type) Val {
 		if v.Addr != nil && (len(v.Addr.Steps) > 0 || v.Addr.Root != rootHeap) {
 			anyAddr = true
 		}
+		if len(v.Alts) > 0 {
+			anyAddr = true
+		}
 	}
 	if anyAddr {
 		if a := fe.mergeAddrs(gs, vs); a != nil {
 			return Val{T: t, Addr: a}
 		}
-		fe.unsupported("merge of differently shaped pointers (%v)", t)
-		return fe.freshVal("mp", t)
+		// differently shaped pointers: keep the alternatives
+		out := Val{T: t}
+		for i, v := range vs {
+			if len(v.Alts) > 0 {
+				for _, a := range v.Alts {
+					out.Alts = append(out.Alts, AltVal{Cond: and(gs[i], a.Cond), V: a.V})
+				}
+				continue
+			}
+			out.Alts = append(out.Alts, AltVal{Cond: gs[i], V: v})
+		}
+		return out
 	}
 	anyView := false
 	for _, v := range vs {
@@ -936,7 +949,28 @@ func sameAddr(a, b *Addr) bool {
 	return true
 }
 
+// altsNil: the nil-ness of a pointer given as alternatives.
+func (fe *FnEnc) altsNil(v Val) string {
+	t := "true"
+	for i := len(v.Alts) - 1; i >= 0; i-- {
+		a := v.Alts[i]
+		var n string
+		if a.V.Term == "0" && a.V.Addr == nil {
+			n = "true"
+		} else {
+			n = fe.ptrAddr(a.V).Nil
+		}
+		t = ite(a.Cond, n, t)
+	}
+	return t
+}
+
 func (fe *FnEnc) mergeAddrs(gs []string, vs []Val) *Addr {
+	for _, v := range vs {
+		if len(v.Alts) > 0 {
+			return nil
+		}
+	}
 	var shape *Addr
 	for _, v := range vs {
 		a := v.Addr
